@@ -91,6 +91,7 @@ type Run struct {
 	maxSamples    int
 	ReplayOnly    bool
 	sampleEveryN  int
+	firstOps      []interface{}
 }
 
 func NewRun(prop, tier string, seed uint64, outDir string) *Run {
@@ -126,6 +127,9 @@ func (r *Run) Budget(quick, thorough int) int {
 func (r *Run) Op(op, answer string) {
 	if strings.ContainsAny(op, "\n\r") || strings.ContainsAny(answer, "\n\r") {
 		panic("newline in protocol line: " + op + " / " + answer)
+	}
+	if len(r.firstOps) < 3 {
+		r.firstOps = append(r.firstOps, map[string]string{"op": op, "impl": answer})
 	}
 	r.ops.WriteString(op)
 	r.ops.WriteByte('\n')
@@ -168,6 +172,9 @@ func (r *Run) Finish() {
 	r.impl.Flush()
 	r.opsF.Close()
 	r.implF.Close()
+	if len(r.Samples) == 0 {
+		r.Samples = append([]interface{}{}, r.firstOps...)
+	}
 	keys := make([]string, 0, len(r.Dist))
 	for k := range r.Dist {
 		keys = append(keys, k)
